@@ -331,6 +331,30 @@ impl Reporter {
         self.violations.len()
     }
 
+    /// Crash breadcrumb. A process abort of the code under test (stack overflow, allocation failure,
+    /// abort()) escapes `catch_unwind` and takes the shard with it. When the driver sees a shard die by
+    /// a signal it re-runs that shard (same seed, so the same cases) with `--breadcrumb=1`; only then
+    /// does this call do anything: it writes the self-contained case that is about to run to
+    /// `<out>/shard-<i>.current.json`, so the driver knows which case killed the process, replays it in
+    /// isolation and reports it as a violation if the replay dies too. No-op (one branch) otherwise.
+    pub fn breadcrumb(&mut self, case: impl FnOnce() -> Value) {
+        if !self.ctx.extra.contains_key("breadcrumb") {
+            return;
+        }
+        let w = json!({
+            "property": self.ctx.prop,
+            "rule": "process-abort",
+            "sig": "?",
+            "seed": self.ctx.seed,
+            "shard": self.ctx.shard,
+            "case": case(),
+            "expected": "the call returns (a value, an error or a caught panic)",
+            "observed": "the process was still inside this case when it died",
+        });
+        let p = self.ctx.out.join(format!("shard-{}.current.json", self.ctx.shard));
+        let _ = fs::write(&p, serde_json::to_string(&w).unwrap());
+    }
+
     /// Record a violation. `rule` = oracle rule id, `sig` = structural discriminator (together
     /// they form the finding signature). `case` must be self-contained (replayable).
     pub fn violation(&mut self, rule: &str, sig: &str, case: Value, expected: Value, observed: Value) {
